@@ -1,6 +1,6 @@
 (** Application headers pass through the request-side rewriting untouched (Model/Request.v:
     extract_request, validate, add_request_headers; Model/Serve.v: serve_head). *)
-From VG Require Import Model.Bytes Model.Headers Model.RespMeta Model.Timeout Model.Request Model.Serve Gen.Generated.
+From VG Require Import Model.Bytes Model.Headers Model.RespMeta Model.Timeout Model.Request Model.Response Model.Serve Gen.Generated.
 From VG Require Import Proofs.ResponseProofs Proofs.ServeProofs.
 Open Scope Z_scope.
 
@@ -16,11 +16,25 @@ Ltac app_facts H :=
   unfold app_key, request_control_keys in H; cbn [map forallb] in H;
   repeat (apply Bool.andb_true_iff in H; let H1 := fresh "K" in destruct H as (H1 & H); apply Bool.negb_true_iff in H1).
 
+(* the side conditions are looked up syntactically on key literals in normal form: [assumption]
+   would try to unify string literals up to conversion, which costs minutes *)
+Ltac lit_keys :=
+  repeat match goal with
+         | K : context [s2b ?s] |- _ => let v := eval vm_compute in (s2b s) in change (s2b s) with v in K
+         end;
+  repeat match goal with
+         | |- context [s2b ?s] => let v := eval vm_compute in (s2b s) in change (s2b s) with v
+         | |- context [hdel ?a _] => is_const a; let v := eval vm_compute in a in change a with v
+         | |- context [hput ?a _ _] => is_const a; let v := eval vm_compute in a in change a with v
+         end.
 Ltac hv :=
+  lit_keys;
   repeat first
-    [ rewrite hvalues_hdel_other by assumption
-    | rewrite hvalues_hput_other by assumption
-    | progress unfold hset ].
+    [ match goal with
+      | K : bytes_eqb ?a ?k = false |- context [hvalues ?k (hdel ?a ?h)] => rewrite (hvalues_hdel_other k a h K)
+      | K : bytes_eqb ?a ?k = false |- context [hvalues ?k (hput ?a ?vs ?h)] => rewrite (hvalues_hput_other k a vs h K)
+      end
+    | progress (unfold hset; lit_keys) ].
 
 Lemma extract_request_keeps pf hb c r h meta h' k :
   app_key k -> extract_request pf hb c r h = HOk (meta, h') -> hvalues k h' = hvalues k h.
@@ -141,3 +155,80 @@ Proof.
   destruct c; try contradiction; unfold add_response_headers; rewrite He; cbn [ho_hdrs];
     (destruct (rm_accept m) as [|a0 as_]; [|unfold hset; rewrite hvalues_hput_other by exact Na]; apply F; assumption).
 Qed.
+
+(** * Trailers of a gRPC backend: from the handler's header map to the end the client is given *)
+Lemma is_prefix_split p s : is_prefix p s = true -> s = p ++ skipn (length p) s.
+Proof.
+  revert s. induction p as [|a p IH]; intros s H; [reflexivity|]. destruct s as [|b s]; [discriminate|]. cbn in H.
+  apply Bool.andb_true_iff in H as [E H]. apply N.eqb_eq in E. subst b. cbn. f_equal. apply IH. exact H.
+Qed.
+
+Lemma is_prefix_app p s : is_prefix p (p ++ s) = true.
+Proof. induction p as [|a p IH]; [reflexivity|]. cbn. rewrite N.eqb_refl. exact IH. Qed.
+
+Lemma skipn_app_len {A} (p s : list A) : skipn (length p) (p ++ s) = s.
+Proof. induction p; [reflexivity|]. cbn. assumption. Qed.
+
+Lemma bytes_eqb_false a b : a <> b -> bytes_eqb a b = false.
+Proof. intros H. destruct (bytes_eqb a b) eqn:E; [apply bytes_eqb_eq in E; congruence|reflexivity]. Qed.
+
+(** a trailer named [k] given with the "Trailer:" prefix (the only way, [k] not being declared) *)
+Lemma extract_prefixed_trailer known h k :
+  existsb (bytes_eqb k) known = false -> is_prefix trailer_prefix k = false ->
+  hvalues k (fst (http_extract_trailers known h)) = hvalues (trailer_prefix ++ k) h.
+Proof.
+  intros Hk Hp. induction h as [|[k' vs'] r IH]; [reflexivity|]. cbn [http_extract_trailers].
+  destruct (http_extract_trailers known r) as [t rest]. cbn [fst] in IH. cbn [hvalues].
+  destruct (is_prefix trailer_prefix k') eqn:P.
+  - cbn [fst hvalues]. unfold strip_prefix. rewrite P.
+    destruct (bytes_eqb k' (trailer_prefix ++ k)) eqn:E.
+    + apply bytes_eqb_eq in E. subst k'. rewrite skipn_app_len, bytes_eqb_refl. reflexivity.
+    + rewrite bytes_eqb_false; [exact IH|]. intros D. apply is_prefix_split in P. rewrite D in P. rewrite P, bytes_eqb_refl in E. discriminate.
+  - assert (E : bytes_eqb k' (trailer_prefix ++ k) = false).
+    { apply bytes_eqb_false. intros ->. rewrite is_prefix_app in P. discriminate. }
+    rewrite E. destruct (existsb (bytes_eqb k') known) eqn:Kn; [|exact IH].
+    cbn [fst hvalues]. rewrite bytes_eqb_false; [exact IH|]. intros ->.
+    assert (existsb (bytes_eqb k) known = true); [|congruence].
+    clear - Kn. induction known as [|x l IHl]; [discriminate|]. cbn in *. apply Bool.orb_true_iff in Kn as [Q|Q].
+    + apply bytes_eqb_eq in Q. subst x. rewrite bytes_eqb_refl. reflexivity.
+    + rewrite (IHl Q). apply Bool.orb_true_r.
+Qed.
+
+Definition grpc_status_keys : list bytes := [k_grpc_status; k_grpc_message; k_grpc_details].
+
+Lemma grpc_extract_error_keeps eo t k : forallb (fun s => negb (bytes_eqb s k)) grpc_status_keys = true ->
+  hvalues k (snd (grpc_extract_error eo t)) = hvalues k t.
+Proof.
+  intros H. cbn in H. apply Bool.andb_true_iff in H as [H1 H]. apply Bool.andb_true_iff in H as [H2 H]. apply Bool.andb_true_iff in H as [H3 _].
+  apply Bool.negb_true_iff in H1, H2, H3. unfold grpc_extract_error. cbn [snd].
+  rewrite !hvalues_hdel_other by assumption. reflexivity.
+Qed.
+
+(** what the backend set as "Trailer:k" comes out of the extraction as trailer [k] of the end *)
+Theorem grpc_backend_trailer_extracted eo known h k :
+  existsb (bytes_eqb k) known = false -> is_prefix trailer_prefix k = false ->
+  forallb (fun s => negb (bytes_eqb s k)) grpc_status_keys = true ->
+  exists e, extract_end_from_trailers eo SGrpc (fst (http_extract_trailers known h)) = Some e /\
+            hvalues k (re_trailers e) = hvalues (trailer_prefix ++ k) h.
+Proof.
+  intros Hk Hp Hs. unfold extract_end_from_trailers.
+  destruct (grpc_extract_error eo (fst (http_extract_trailers known h))) as [err t'] eqn:G.
+  eexists. split; [reflexivity|]. cbn [re_trailers].
+  pose proof (grpc_extract_error_keeps eo (fst (http_extract_trailers known h)) k Hs) as K. rewrite G in K. cbn [snd] in K.
+  rewrite K. apply extract_prefixed_trailer; assumption.
+Qed.
+
+(** ... and the end is handed to the client as it is, in the place its protocol has for it *)
+Definition end_events (o : end_out) : list devent :=
+  match o with EndNothing => [] | EndBody e => [DEnd e] | EndTrailers e => [DTrailers e] end.
+
+Transparent report_end write_end.
+Theorem reported_end_is_delivered cx e c m : c_end_written c = false -> c_flushed c = true ->
+  c_meta c = Some m -> rm_pending_trailers m = [] ->
+  c_out (report_end cx e c) =
+  c_out c ++ end_events (encode_end (w_client cx) (w_limit cx) (w_end_len cx) e false) ++ [DDone; DFlush].
+Proof.
+  intros Ew Fl Em Ep. unfold report_end. rewrite Ew, Fl, Em, Ep. unfold write_end.
+  destruct (encode_end _ _ _ e false); unfold emit; cbn [c_out end_events]; rewrite <- ?app_assoc; reflexivity.
+Qed.
+Opaque report_end write_end.
